@@ -336,11 +336,17 @@ func mutateRecipe(s Src, r *ScopeRecipe) (*ScopeRecipe, string) {
 	}
 	obj := &out.Objects[oi]
 	isRoot := obj.ID == out.Root
+	// an object the root reaches through references, one-of members, list items or map keys/values of enabled
+	// properties takes part in the comparison just like the root: a producer that differs there can never be consumed
+	reached := reachableObjects(out)[obj.ID]
 	mark := func(m string) string {
 		if isRoot {
 			return ":!" + m
 		}
-		return ":" + m // reachability of nested objects is not tracked: no expectation
+		if reached {
+			return ":!" + m + ":behind-reference"
+		}
+		return ":" + m // not reachable from the root: no expectation
 	}
 	if s.Choose("mu.oneof", 5) == 4 {
 		// a one-of member of the producer points at another object than the consumer's member for that value
@@ -527,6 +533,47 @@ func mutateRecipe(s Src, r *ScopeRecipe) (*ScopeRecipe, string) {
 		}
 		return out, ":same"
 	}
+}
+
+// reachableObjects returns the IDs of the objects the root object reaches structurally.
+func reachableObjects(r *ScopeRecipe) map[string]bool {
+	seen := map[string]bool{}
+	var visitObj func(id string)
+	var visitType func(t *TypeRecipe)
+	visitType = func(t *TypeRecipe) {
+		if t == nil {
+			return
+		}
+		if t.Ref != "" {
+			visitObj(t.Ref)
+		}
+		for _, m := range t.OneOf {
+			visitObj(m[1])
+		}
+		for _, m := range t.OneOfI {
+			visitObj(m.Obj)
+		}
+		visitType(t.Items)
+		visitType(t.Keys)
+		visitType(t.Values)
+	}
+	visitObj = func(id string) {
+		if seen[id] {
+			return
+		}
+		o := r.object(id)
+		if o == nil {
+			return
+		}
+		seen[id] = true
+		for i := range o.Props {
+			if !o.Props[i].Disabled {
+				visitType(&o.Props[i].T)
+			}
+		}
+	}
+	visitObj(r.Root)
+	return seen
 }
 
 func renameRefs(r *ScopeRecipe, old, neu string) {
